@@ -56,7 +56,7 @@ def sweep_cases(ctx):
     reps = 1 if ctx.quick else 6
     for _ in range(reps):
         for f in fracs:
-            for kind in ('sleep', 'raise', 'owntimeout', 'native', 'swallow'):
+            for kind in ('sleep', 'raise', 'owntimeout', 'native', 'swallow', 'retnone', 'retzero', 'retempty'):
                 if ctx.quick and rng.random() < 0.45:
                     continue
                 cases.append({'kind': kind, 'limit': limit, 'dur': round(limit*f, 4), 'inner_limit': 0})
@@ -115,7 +115,7 @@ def run(ctx):
             if v[2]:
                 fails.append({'tid': r['tid'], 'fails': v[2], 'rec': r})
         return {'mc': mc, 'n_behaviours': len(behs), 'n_replayed': sum(1 for r in live if r['rkind'] == 'schedule'),
-                'n_skipped_unrealisable': len(skipped), 'n_sweep': sum(1 for r in live if r['rkind'] == 'sweep'),
+                'n_skipped_unrealisable': len(skipped), 'n_left_forced_behaviour': sum(1 for r in live if r['rkind'] == 'schedule' and r.get('unrealised')), 'n_sweep': sum(1 for r in live if r['rkind'] == 'sweep'),
                 'states': mon['states'] + sum(m['states'] for m in mc.values()),
                 'transitions': mon['transitions'] + sum(m['transitions'] for m in mc.values()), 'fails': fails,
                 'samples': [{k: r[k] for k in ('beh', 'expected', 'outcome', 'hooks', 'released', 'delivered', 'running_after')}
